@@ -136,7 +136,10 @@ def instances_for(prop, tier, seed):
                 out.append({'t': tname, 'flav': flav, 'seg': mode, 'cap': 8 if tname.startswith('long') or (seed + len(out)) % 2 else 4096, 'v': 2 if q else 3})
     elif prop == 'C02':
         for tname in TEMPLATES_WF + (['free4'] if q else ['free4', 'free5', 'free6']):
-            out.append({'t': tname, 'mode': 'splits', 'cap': 8, 'v': 1 if q else 2, 'astep': 3 if q else 1})
+            # the long templates have many split points: their segmentation plans are distributed over several instances (workers)
+            parts = 4 if tname in ('long', 'longbin') else (2 if tname in ('list4', 'two', 'listerr', 'field2', 'bin0') else 1)
+            for part in range(parts):
+                out.append({'t': tname, 'mode': 'splits', 'cap': 8, 'v': 1 if q else 2, 'astep': 3 if q else 1, 'part': part, 'parts': parts})
             if not q:
                 out.append({'t': tname, 'mode': 'splits', 'cap': 4096, 'v': 2})
         for n in ((3, 4) if q else (3, 4, 5, 6)):
@@ -234,6 +237,7 @@ def run_c02(P, res, pl):
         plans = [('async', [])] + [('sync', [j]) for j in range(1, n)] + [('async', [j]) for j in range(1, n, step)] + [('sync', list(range(1, n))), ('async', list(range(1, n)))]
         if n >= 6:
             plans.append(('sync', [n // 3, 2 * n // 3])); plans.append(('async', [1, n - 1]))
+        plans = plans[pl.get('part', 0)::pl.get('parts', 1)]
         for f, cuts in plans:
             sessions.append((f, cuts, run_session(I, f, body, cuts, pl['cap'])))
         return sessions
@@ -417,8 +421,13 @@ def run_c10(P, res, pl):
         body = body[:cut]
         I._body = body
         want, status = expected_from_reference(I.ctx, body)
-        seg = I.ctx.choose(2, 'seg')
-        I._cuts = [] if seg == 0 else list(range(1, len(body)))
+        # reads: everything at once | one byte per read | (pipelined templates) two reads split at a quarter / half / three quarters
+        seg = I.ctx.choose(3 if t in ('long', 'longbin', 'two', 'list4') else 2, 'seg')
+        if seg == 2:
+            pos = [len(body) // 4, len(body) // 2, 3 * len(body) // 4, len(body) - 12][I.ctx.choose(4, 'split')]
+            I._cuts = [pos] if 0 < pos < len(body) else []
+        else:
+            I._cuts = [] if seg == 0 else list(range(1, len(body)))
         co, outs, tr, conn = run_session(I, pl['flav'], body, I._cuts, pl['cap'], max_receives=5)
         return (want, status), co, outs
     for pr in explore(P, harness):
